@@ -15,6 +15,8 @@ pub enum Sink {
     Vec,
     /// `.count()`  ->  `N(n)`
     Count,
+    /// items mapped to their first token (`'?'` if none), `.collect::<String>()` -> `L(T(c)..)`
+    Str,
     /// the IterParser used directly as a `Parser<()>` (no collect) -> `U`
     Bare,
     /// `.collect_exactly::<[_; N]>()` -> `L(items)`, N in 0..=3
@@ -103,6 +105,22 @@ pub enum G {
     Memo(Box<G>),
     /// `.with_state(Track::default())`
     WithState(Box<G>),
+    /// `.map(|v| second component of the pair)` (explicit form of ignore_then)
+    Snd(Box<G>),
+    /// `.map(|v| first component of the pair)` (explicit form of then_ignore)
+    Fst(Box<G>),
+    /// `.map(|_| U)` (explicit form of ignored / bare repetition)
+    MapUnit(Box<G>),
+    /// `.map(|_| Z)` (explicit form of to)
+    MapZ(Box<G>),
+    /// `.map_with(|_, e| slice)` (explicit form of to_slice)
+    SliceWith(Box<G>),
+    /// `.map_with(|_, e| span)` (explicit form of to_span)
+    SpanWith(Box<G>),
+    /// `.map(|L[o, a, c]| a)` (explicit form of delimited_by / padded_by over group((o, a, c)))
+    Mid(Box<G>),
+    /// `.lazy()`
+    Lazy(Box<G>),
     Rep(Box<G>, Bounds, Sink),
     // ---- binary / n-ary ---------------------------------------------------------------------
     Then(Box<G>, Box<G>),
@@ -157,7 +175,8 @@ impl G {
             Map(a) | To(a) | Ignored(a) | Filter(a) | TryMap(a) | TryMapWith(a) | OrNot(a)
             | Not(a) | Rewind(a) | Boxed(a) | ToSlice(a) | ToSpan(a) | Validate(a, _)
             | Labelled(a, _) | MapErr(a) | Memo(a) | WithState(a) | NestedDelims(a)
-            | WithCtx(_, a) | MapCtx(a) | RepCtx(a) | TryRepCtx(a) => vec![a],
+            | WithCtx(_, a) | MapCtx(a) | RepCtx(a) | TryRepCtx(a) | Snd(a) | Fst(a) | MapUnit(a)
+            | MapZ(a) | SliceWith(a) | SpanWith(a) | Mid(a) | Lazy(a) => vec![a],
             Rep(a, _, s) => {
                 let mut v = vec![&**a];
                 v.extend(s.child());
@@ -219,7 +238,9 @@ pub fn nullable(g: &G) -> bool {
         EmptyChoice => false,
         Map(a) | To(a) | Ignored(a) | Filter(a) | TryMap(a) | TryMapWith(a) | Boxed(a)
         | ToSlice(a) | ToSpan(a) | Validate(a, _) | Labelled(a, _) | MapErr(a) | Memo(a)
-        | WithState(a) | WithCtx(_, a) | MapCtx(a) => nullable(a),
+        | WithState(a) | WithCtx(_, a) | MapCtx(a) | Snd(a) | Fst(a) | MapUnit(a) | MapZ(a)
+        | SliceWith(a) | SpanWith(a) | Mid(a) => nullable(a),
+        Lazy(_) => true,
         OrNot(_) | Not(_) | Rewind(_) => true,
         Rep(a, bd, sink) => {
             let me = bd.min == 0 || nullable(a);
@@ -301,6 +322,30 @@ pub fn first_tok(v: &Val) -> Option<Tok> {
     }
 }
 
+/// projections used by the explicit formulations (total: a non-matching shape is returned unchanged)
+pub fn snd_of(v: Val) -> Val {
+    match v {
+        Val::P(_, b) => *b,
+        o => o,
+    }
+}
+pub fn fst_of(v: Val) -> Val {
+    match v {
+        Val::P(a, _) => *a,
+        o => o,
+    }
+}
+pub fn mid_of(v: Val) -> Val {
+    match v {
+        Val::L(mut vs) if vs.len() == 3 => vs.remove(1),
+        o => o,
+    }
+}
+/// `collect::<String>()` item mapper
+pub fn char_of(v: &Val) -> char {
+    first_tok(v).unwrap_or('?')
+}
+
 /// The predicate used by `filter`, `try_map`, `try_map_with`: reject iff the first token in
 /// the value is `b`.
 pub fn pred(v: &Val) -> bool {
@@ -369,6 +414,7 @@ impl fmt::Display for G {
             match s {
                 Sink::Vec => write!(f, "vec"),
                 Sink::Count => write!(f, "count"),
+                Sink::Str => write!(f, "string"),
                 Sink::Bare => write!(f, "bare"),
                 Sink::Exactly(n) => write!(f, "exactly{}", n),
                 Sink::Enumerate => write!(f, "enumerate"),
@@ -406,6 +452,14 @@ impl fmt::Display for G {
             MapErr(a) => write!(f, "map_err({})", a),
             Memo(a) => write!(f, "memoized({})", a),
             WithState(a) => write!(f, "with_state({})", a),
+            Snd(a) => write!(f, "snd({})", a),
+            Fst(a) => write!(f, "fst({})", a),
+            MapUnit(a) => write!(f, "map_unit({})", a),
+            MapZ(a) => write!(f, "map_z({})", a),
+            SliceWith(a) => write!(f, "slice_with({})", a),
+            SpanWith(a) => write!(f, "span_with({})", a),
+            Mid(a) => write!(f, "mid({})", a),
+            Lazy(a) => write!(f, "lazy({})", a),
             Rep(a, x, s) => {
                 write!(f, "repeated[")?;
                 bd(f, x)?;
@@ -530,6 +584,7 @@ impl<'a> P<'a> {
         Ok(match id.as_str() {
             "vec" => Sink::Vec,
             "count" => Sink::Count,
+            "string" => Sink::Str,
             "bare" => Sink::Bare,
             "enumerate" => Sink::Enumerate,
             "exactly0" => Sink::Exactly(0),
@@ -650,6 +705,14 @@ impl<'a> P<'a> {
             "map_err" => MapErr(un(self)?),
             "memoized" => Memo(un(self)?),
             "with_state" => WithState(un(self)?),
+            "snd" => Snd(un(self)?),
+            "fst" => Fst(un(self)?),
+            "map_unit" => MapUnit(un(self)?),
+            "map_z" => MapZ(un(self)?),
+            "slice_with" => SliceWith(un(self)?),
+            "span_with" => SpanWith(un(self)?),
+            "mid" => Mid(un(self)?),
+            "lazy" => Lazy(un(self)?),
             "nested_delims" => NestedDelims(un(self)?),
             "map_ctx" => MapCtx(un(self)?),
             "rep_ctx" => RepCtx(un(self)?),
